@@ -213,8 +213,15 @@ def run(ctx):
             raise RuntimeError(s[1])
         if s:
             sd.append(s)
+    ncpu = len(sd)
     for name, lines in C12.GENERIC:
         sd.append((name, "\n".join(lines) + "\n", C12.GENERIC_FILES))
+    # every CPU seed once more with an odd number of data bytes in front of its first instruction (alignment padding and its
+    # warning must not depend on the options), and literal control characters inside string and character constants
+    for name, src, files in sd[:ncpu]:
+        if "\n.org 0x100\n" in src:
+            sd.append((name + "+odd-data", src.replace("\n.org 0x100\n", "\n.org 0x100\n.db 0x31, 0x32, 0x33\n", 1), files))
+    sd.append(("control-characters", ".msp430\n.org 0x100\n.db \"a\tb\", '\t', 0\n.ascii \"x\ty\"\nmov.w #'\t', r5\n.db \"\x01\x7f\", 1\n", {}))
     # (i)
     subsets = [c for n in range(len(OPTS) + 1) for c in itertools.combinations(OPTS, n)]
     if q:
